@@ -16,6 +16,7 @@ import CpModel.Escape
     hesc T            -> T                       html.escape(s, quote=False)
     qattr T           -> T                       saxutils.quoteattr
     errpage T T T T   -> ok H | none             get_error_page(status, message, traceback, version) bytes
+    errpagefail T T T T T -> ok H | none         … when the custom error page failed with exception line e
     redir N T …       -> ok H | none             HTTPRedirect.set_response body bytes
     log T             -> T                       one access-log atom
     logline k=T …     -> ok T | none             the access-log line
@@ -100,6 +101,11 @@ def step (line : String) : String :=
     match Proto.untext? a, Proto.untext? b, Proto.untext? c, Proto.untext? d with
     | some a', some b', some c', some d' => showOptBytes (errorPageBytes a' b' c' d')
     | _, _, _, _ => "bad-op"
+  | ["errpagefail", a, b, c, d, e] =>
+    match Proto.untext? a, Proto.untext? b, Proto.untext? c, Proto.untext? d, Proto.untext? e with
+    | some a', some b', some c', some d', some e' =>
+      showOptBytes ((errorPageFailed a' b' c' d' e').map utf8)
+    | _, _, _, _, _ => "bad-op"
   | "redir" :: n :: ts =>
     match n.toNat?, ts.mapM Proto.untext? with
     | some c, some urls => showOptBytes ((redirectBody c urls).map utf8)
